@@ -791,6 +791,144 @@ def impl_not_parse_string(m, data):
         return "EXC:" + type(e).__name__
 
 
+def impl_not_parse(m, buf):
+    try:
+        p = m.base.serde_notation.LLSDNotationParser()
+        v = p.parse(buf)
+        return "OK %d %s" % (len(buf) - p._index, tok(m, v))
+    except Exception as e:
+        return "EXC:" + type(e).__name__
+
+
+def oracle_tables(m, buf):
+    """the two library oracles of the notation parser model, tabulated for one buffer: float(text) for every text
+    _real_regex can match after an 'r', and _parse_datestr(text) for every quoted text after a 'd'"""
+    import re
+    sn = m.base.serde_notation
+    rt, dtab = {}, {}
+    for i, c in enumerate(buf):
+        if c == 0x72:
+            mt = sn._real_regex.match(buf, i + 1)
+            if mt:
+                try:
+                    rt[mt.group(0)] = fbits(float(mt.group(0)))
+                except Exception:
+                    pass
+    for mt in re.finditer(rb"d\"([^\"\\\\]*)\"|d'([^'\\\\]*)'", buf):
+        text = mt.group(1) if mt.group(1) is not None else mt.group(2)
+        try:
+            dtab[text] = dt_ts_bits(m.base.base._parse_datestr(text.decode("utf-8")))
+        except Exception:
+            pass
+    return (" ".join("%s %s" % (hx(k), v) for k, v in rt.items()), " ".join("%s %s" % (hx(k), v) for k, v in dtab.items()))
+
+
+def whole_tree_parse_leg(ctx, m, res, trees):
+    """LLSDNotationParser.parse vs the extracted parse_not_rest on format_notation output (strict: value, bytes consumed,
+    error) and on mutated notation text (one-sided: wherever the model is defined the implementation must agree)"""
+    rng = ctx.rng
+    lines, plan = [], []
+    seen = set()
+    hyp = set()
+    for t in trees:
+        try:
+            buf = m.llsd.format_notation(t)
+        except Exception:
+            continue
+        cands = [("formatted", buf)]
+        if rng.random() < 0.3:
+            cands.append(("formatted+tail", buf + rng.choice((b",", b"]x", b"}", b" ", b",i5"))))
+        for _ in range(ctx.pick(2, 4)):
+            b2 = buf
+            for _ in range(rng.choice((1, 1, 2))):
+                b2 = mutate_notation(rng, b2)
+            cands.append(("mutated", b2))
+        for kindname, b in cands:
+            if b in seen or not b:
+                continue
+            seen.add(b)
+            rtab, dtab = oracle_tables(m, b)
+            lines.append("pn %s ; %s ; %s" % (hx(b), rtab, dtab))
+            plan.append((kindname, b))
+        # the lexical hypotheses of the round-trip theorem, checked on every library rendering met
+        for x in walk(m, t):
+            if isinstance(x, float):
+                hyp.add(repr(x).encode())
+            elif isinstance(x, (datetime.datetime, datetime.date)):
+                d = m.base.base._format_datestr(x)
+                if any(c >= 128 or c in (0x22, 0x5c) for c in d):
+                    res.disagreements.append({"op": "hypothesis: date string is plain ASCII without quote/backslash", "text": d.hex()})
+    for sp in (b"", b"!", b"i0", b"i-0", b"i+12x", b"i", b"r.5", b"r1e5,", b"rnan", b"r-inf]", b"t", b"T}", b"tr", b"true1", b"TRUE", b"FALSE_",
+               b"f,", b"fa", b"[]", b"[,, ]", b"{}", b"{ , }", b"{'a':!}", b"{'a' :\t1}", b"{'a':1,'a':0,'b':!}", b"{'a'}", b"{'a'!}",
+               b"[1 0]", b"[i1i2]", b"b16\"0aFF\"", b"b16\"0A\"", b"b64\"QQ==\"", b"b64\"QR==\"", b"b64\"QUI\"", b"b64\"Q Q==\"", b"b64\"\"",
+               b"b64\"QQ", b"b(2)\"ab\"", b"s(2)'ab'", b"u00000000-0000-0000-0000-00000000000A", b"u{0000000-0000-0000-0000-00000000000A}",
+               b"u0000", b"l'x'", b"l\"a\\\"b\"", b"d\"\"", b"d\"2020-01-02T03:04:05.000678Z\"", b"d\"x\"", b"\"a\\x41\"", b"'\xff'", b" !", b"x"):
+        if sp not in seen:
+            seen.add(sp)
+            rtab, dtab = oracle_tables(m, sp)
+            lines.append("pn %s ; %s ; %s" % (hx(sp), rtab, dtab))
+            plan.append(("hand", sp))
+    hyp = sorted(hyp)
+    for r in hyp:
+        for tail in (b"", b",", b"]", b"}"):
+            lines.append("sr " + hx(r + tail))
+    out = ctx.run_driver(lines)
+    counts = {"formatted": 0, "mutated_model_defined": 0, "mutated_outside_model_or_error": 0, "hand": 0}
+    k = 0
+    for kindname, b in plan:
+        mo = out[k]
+        k += 1
+        io = impl_not_parse(m, b)
+        if kindname.startswith("formatted"):
+            counts["formatted"] += 1
+            if errclass(io) != mo:
+                res.disagreements.append({"op": "parse_notation(formatted tree)", "input": b.hex(), "impl": io[:400], "model": mo[:400]})
+        else:
+            if kindname == "hand":
+                counts["hand"] += 1
+            if mo.startswith("OK"):
+                counts["mutated_model_defined"] += 1
+                if io != mo:
+                    res.disagreements.append({"op": "parse_notation(model defined)", "input": b.hex(), "impl": io[:400], "model": mo[:400]})
+            else:
+                counts["mutated_outside_model_or_error"] += 1
+                if not io.startswith("EXC:"):
+                    counts["model_undefined_impl_value"] = counts.get("model_undefined_impl_value", 0) + 1
+    for r in hyp:
+        for tail in (b"", b",", b"]", b"}"):
+            mo = out[k]
+            k += 1
+            if mo != "OK %s %d" % (hx(r), len(tail)):
+                res.disagreements.append({"op": "hypothesis: _real_regex matches exactly repr(float) before a delimiter",
+                                          "text": (r + tail).hex(), "model": mo})
+    res.distribution["whole_tree_parse"] = counts
+    res.distribution["repr_float_texts_checked"] = len(hyp)
+    return len(lines)
+
+
+def mutate_notation(rng, b):
+    b = bytearray(b)
+    if not b:
+        return bytes([rng.choice(b"![{i")])
+    r = rng.random()
+    if r < 0.35:
+        i = rng.randrange(len(b))
+        b[i] = rng.choice(b" ,:[]{}'\"\\!01tfTFirusldb.+-eEx9aZ=_(\n\t")
+    elif r < 0.55:
+        i = rng.randrange(len(b) + 1)
+        b[i:i] = bytes(rng.choice(b" ,:[]{}'\"\\!01tfir.+-e9a=\n") for _ in range(rng.randrange(1, 3)))
+    elif r < 0.75:
+        i = rng.randrange(len(b))
+        del b[i]
+    elif r < 0.9:
+        del b[rng.randrange(len(b)):]
+    else:
+        i = rng.randrange(len(b))
+        j = rng.randrange(len(b))
+        b[i], b[j] = b[j], b[i]
+    return bytes(b)
+
+
 def suite_notation(ctx, m):
     res = CorrResult(
         suite="notation LLSD: STRING formatter, escape machine and whole-tree formatter vs extracted model",
@@ -799,7 +937,11 @@ def suite_notation(ctx, m):
              "compared) and back through LLSDNotationParser / the model's escape machine (value and bytes consumed compared); "
              "every byte string over the same alphabet between quotes + seeded random escape soup through both parsers "
              "(malformed: bad hex, dangling escape, missing delimiter); generated trees (depth<=4, all types) through "
-             "llsd.format_notation and the model's fmt_not (repr(float)/datestr supplied as tables) byte for byte; "
+             "llsd.format_notation and the model's fmt_not (repr(float)/datestr supplied as tables) byte for byte; the "
+             "formatted text (also with trailing bytes) through LLSDNotationParser.parse and the model's parse_not_rest "
+             "(float()/_parse_datestr supplied as tables): value, bytes consumed and errors compared; seeded mutations of the "
+             "text + hand-written inputs: wherever the partial model is defined the implementation must return the same; "
+             "the theorem's lexical hypotheses on repr(float) and the date string checked on every rendering met; "
              "non-trivial = string containing an escape-relevant byte, or a tree with a container" % ctx.pick(5, 6))
     rng = ctx.rng
     alpha = ["a", "n", "x", "4", "\\", "'", '"', "\n"]
@@ -904,9 +1046,10 @@ def suite_notation(ctx, m):
         nlf = keys_uris_nl_free(m, t)
         if (mwf[2] == "1") != nlf:
             res.disagreements.append({"op": "keys_uris_nl_free", "tree": enc(m, t), "impl": nlf, "model": mwf})
-    res.evaluations = len(lines)
+    npn = whole_tree_parse_leg(ctx, m, res, tplan)
+    res.evaluations = len(lines) + npn
     res.distinct_nontrivial = nontriv + len(raw)
-    res.distribution = {"strings_exhaustive": nexh, "strings_random": len(plan) - nexh, "quoted_inputs": len(raw), "trees": len(tplan)}
+    res.distribution.update({"strings_exhaustive": nexh, "strings_random": len(plan) - nexh, "quoted_inputs": len(raw), "trees": len(tplan)})
     res.samples = [{"string": s} for _, s in plan[200:203]] + [{"quoted": r.hex()} for r in raw[1000:1002]]
     return res
 
